@@ -21,10 +21,11 @@ RULE = (
     "raises, a worker process dies (at every scheduling point), user cancellation (at every scheduling point); a second set of fault specs "
     "(@rc) runs the REAL racecontrol.BenchmarkActor with its coordinator, the real MechanicActor of an externally provisioned cluster and the "
     "real DriverActor created by it, the environment being racecontrol.race() (ask Setup, first answer = outcome, tell exit), plus failures of "
-    "race control's own metrics store at the n-th hand-over; schedules: all within the "
+    "race control's own metrics store at the n-th hand-over; +prof specs: driver profiling enabled with several clients per worker (S5b, S1 on one core); schedules: all within the "
     "deviation bound (the environment faults consume the deviation). non-trivial = every execution (each has a fault); distinct = (config, fault, choices)"
 )
 ASSUMPTIONS = [
+    "+prof specs (driver profiling enabled): yappi is replaced by a stand-in with the interface AsyncProfiler uses; the AsyncProfiler wrapper itself is the real one",
     "race control = environment replaying BenchmarkActor's handlers around the real BenchmarkCoordinator, or (@rc specs) the real BenchmarkActor "
     "itself with racecontrol.race() as the environment; summary reporter replaced by a recorder",
     "a user cancellation takes effect when the benchmark actor handles BenchmarkCancelled; a worker that dies or a cancellation that takes "
@@ -33,7 +34,7 @@ ASSUMPTIONS = [
 ]
 
 HORIZON = 200.0
-LAST_ELEMENT = {"SO": ("c", 1), "S1": ("b", 2), "S2": ("c", 2), "S5b": ("d", 2), "S3": ("c", 4), "SL": ("b", 1)}
+LAST_ELEMENT = {"SO": ("c", 1), "S1": ("b", 2), "S1p": ("b", 2), "S2": ("c", 2), "S5b": ("d", 2), "S3": ("c", 4), "SL": ("b", 1)}
 
 
 def last_element_done(sname, log, ft):
@@ -56,6 +57,9 @@ def P(tasks, clients=None):
 
 def shape(name, op_for):
     """op_for(task key) -> extra op params (fault parameters)"""
+    if name == "S1p":
+        # S1 with both clients on one worker
+        return [T("a", 2, it=3, **op_for("a")), T("b", 1, it=2, **op_for("b"))], (["localhost"], 1)
     if name == "S1":
         return [T("a", 2, it=3, **op_for("a")), T("b", 1, it=2, **op_for("b"))], (["localhost"], 2)
     if name == "S3":
@@ -81,9 +85,9 @@ def shape(name, op_for):
     return [P([T("a", 1, it=2, **op_for("a")), T("b", 1, it=2, **op_for("b")), T("c", 1, it=1, **op_for("c"))], clients=2), T("d", 2, it=1, **op_for("d"))], (["localhost"], 1)
 
 
-LAST = {"SO": ("s", 0, 2), "S1": ("b", 0, 1), "S2": ("c", 1, 0), "S5b": ("d", 1, 0), "S3": ("c", 1, 1), "SL": ("b", 0, 0)}
-MID = {"SO": ("s", 0, 1), "S1": ("a", 1, 1), "S2": ("b", 0, 1), "S5b": ("c", 0, 0), "S3": ("b", 0, 1), "SL": ("a", 0, 2)}
-FIRST = {"SO": ("s", 0, 0), "S1": ("a", 1, 1) if False else ("a", 0, 0), "S2": ("a", 0, 0), "S5b": ("a", 0, 0), "S3": ("b", 0, 0), "SL": ("a", 0, 0)}
+LAST = {"SO": ("s", 0, 2), "S1": ("b", 0, 1), "S1p": ("b", 0, 1), "S2": ("c", 1, 0), "S5b": ("d", 1, 0), "S3": ("c", 1, 1), "SL": ("b", 0, 0)}
+MID = {"SO": ("s", 0, 1), "S1": ("a", 1, 1), "S1p": ("a", 1, 1), "S2": ("b", 0, 1), "S5b": ("c", 0, 0), "S3": ("b", 0, 1), "SL": ("a", 0, 2)}
+FIRST = {"SO": ("s", 0, 0), "S1": ("a", 0, 0), "S1p": ("a", 0, 0), "S2": ("a", 0, 0), "S5b": ("a", 0, 0), "S3": ("b", 0, 0), "SL": ("a", 0, 0)}
 
 
 def fault_specs(tier):
@@ -117,6 +121,11 @@ def fault_specs(tier):
         out.append((s, "cancel@rc", 0))
     for n in range(0, 4):
         out.append(("S1", "rc-store-raises@rc", n))
+    # driver profiling on, several clients per worker: the fault hits one client while its neighbours are still running
+    for s in ("S5b", "S1p"):
+        for kind in ("api-abort", "connection-error", "source-raises", "runner-raises"):
+            for where in ("first", "mid", "last") if tier == "thorough" else ("first", "mid"):
+                out.append((s, kind + "+prof", where))
     out.append(("S3", "api-abort@rc", "mid"))
     # on-error=abort with a task that tolerates non-fatal errors next to one that does not (same operation, same worker)
     for where in ("first", "mid", "last"):
@@ -305,11 +314,40 @@ class FailingProcessor:
         return [(fine, {}), (boom, {})]
 
 
+class _YappiStandIn:
+    """what esrally.driver.driver.AsyncProfiler uses of yappi"""
+
+    def __init__(self):
+        self.running = 0
+
+    def start(self, *a, **k):
+        self.running += 1
+
+    def stop(self):
+        self.running = 0
+
+    def get_func_stats(self, *a, **k):
+        class Stats:
+            def print_all(self, out=None, columns=None):
+                if out is not None:
+                    out.write("name ncall tsub ttot tavg\n")
+
+        return Stats()
+
+    def clear_stats(self):
+        pass
+
+    def is_running(self):
+        return self.running > 0
+
+
 def check_race(spec, ch, res):
     sname, kind, where = spec[:3]
     lp = len(spec) > 3 and bool(spec[3])  # line-level preemption of worker handlers by the executor thread
     real = kind.endswith("@rc")  # the real BenchmarkActor / MechanicActor(external) on top of the driver instead of their emulation
     kind = kind.replace("@rc", "")
+    prof = kind.endswith("+prof")  # --enable-driver-profiling: every client's executor runs inside the AsyncProfiler wrapper
+    kind = kind.replace("+prof", "")
     late = kind.endswith("-late-teardown")
     kind = kind.replace("-late-teardown", "")
     s = racesim.setup()
@@ -420,13 +458,24 @@ def check_race(spec, ch, res):
         m.InMemoryMetricsStore.put_value_cluster_level = failing_put
     hook = (lambda register: register(FailingProcessor())) if kind == "prep-task-fails" else None
     del loadgen.FIRED[:]
+    import sys
+
+    real_yappi = sys.modules.get("yappi")
+    if prof:
+        # the profiler itself (third-party, process-global, slow) is environment: a stand-in with the interface AsyncProfiler uses
+        sys.modules["yappi"] = _YappiStandIn()
     try:
         r = racesim.run_race(schedule, hosts, cores, behaviour, ch, horizon=HORIZON, on_error=on_error, faults=faults,
                              rc_factory=None if real else rc_factory, top_factory=top_factory if real else None, track_plugin_hook=hook,
-                             linger=90.0 if late else 0.0, line_preempt=lp)
+                             linger=90.0 if late else 0.0, line_preempt=lp, cfg_extra={("driver", "profiling"): True} if prof else None)
     finally:
         m.InMemoryMetricsStore.put_value_cluster_level = orig_put
         m.InMemoryMetricsStore.bulk_add = orig_bulk_add
+        if prof:
+            if real_yappi is not None:
+                sys.modules["yappi"] = real_yappi
+            else:
+                sys.modules.pop("yappi", None)
     rc = r.rc
     names = [n for _t, n, _m in r.received]
     v = None
